@@ -48,7 +48,8 @@ Definition event_split_brackets (t : list (string * list string)) : bool :=
 
 (* a handler registered with subscribe_event (Strategy.wrap_user_event_handler): the events of a day phase - also their PRE_ / POST_
    brackets - are handled in that phase; every other event (orders, trades, settlement ...) in the phase that is running when it is
-   published.  t is the table Strategy._EVENT_PHASE; fallback_enclosing says that an event without an entry keeps the enclosing phase
+   published: the phase of the innermost day-phase event being published (EventBus keeps that stack - the broker raises order events from
+   its own BEFORE_TRADING / AFTER_TRADING listeners, outside any phase context), else the phase on the stack; `enclosing` stands for that.  t is the table Strategy._EVENT_PHASE; fallback_enclosing says that an event without an entry keeps the enclosing phase
    (false: the handler is forced into GLOBAL, where the order APIs and the unrestricted views are open). *)
 Definition handler_phase (t : list (string * xphase)) (fallback_enclosing : bool) (ev : string) (enclosing : xphase) : xphase :=
   match lookup ev t with Some p => p | None => if fallback_enclosing then enclosing else XGlobal end.
